@@ -381,6 +381,11 @@ def case_reuse(c):
     moment.  Nothing of an earlier solve may stick to the model or grid."""
     import emg3d
     grid, model = build(c)
+    if c.get('basemesh'):
+        # the minimal mesh class of emg3d instead of the discretize one
+        bgrid = emg3d.meshes.BaseMesh(h=[np.array(x) for x in grid.h],
+                                      origin=np.array(grid.origin))
+        model = zoo.model(bgrid, c['model'])
     n = tuple(grid.shape_cells)
     idx = np.flatnonzero(fit.interior_mask(n))
     viol, compared, nsolve = [], 0, 0
@@ -404,7 +409,7 @@ def case_reuse(c):
             continue
         freq = freqs[op]
         svec, _ = make_source(grid, 'dipole' if freq > 0 else 'real', freq)
-        sfield = emg3d.Field(grid, data=svec.copy(), frequency=freq)
+        sfield = emg3d.Field(model.grid, data=svec.copy(), frequency=freq)
         A = fit.assemble_for(model, zoo.sval_of(freq))
         if sfield.field.dtype.kind != 'c':
             A = A.real
@@ -464,6 +469,9 @@ def reuse_cases(tier):
                             continue
                         out.append({'grid': g, 'model': m, 'cfg': cfg,
                                     'ops': list(ops)})
+                        if d == 2 or (ops[1][0] == 'S' and d == 3):
+                            out.append({'grid': g, 'model': m, 'cfg': cfg,
+                                        'ops': list(ops), 'basemesh': True})
     return out
 
 
